@@ -114,6 +114,7 @@ type labDgram struct {
 	dropped   bool
 	t         time.Duration
 	g         uint64
+	tag       string // flight the emitting FSM was in ("F1".."F6"), "alert", or ""
 }
 
 type labIn struct {
@@ -130,6 +131,7 @@ type labEnd struct {
 	closed  bool
 	rdl     time.Time
 	rdlGen  int
+	tag     func() string
 }
 
 // labAction is what the automatic policy decides for an emitted datagram.
@@ -233,10 +235,15 @@ func (e *labEnd) WriteTo(p []byte, addr net.Addr) (int, error) {
 		idx: len(n.emitted[dir]), dir: dir, from: e.name, src: e.addr, dst: dst,
 		data: append([]byte(nil), p...), t: time.Since(n.start), g: vtrace.NextSeq(),
 	}
+	if len(p) > 0 && p[0] == 21 {
+		d.tag = "alert"
+	} else if e.tag != nil {
+		d.tag = e.tag()
+	}
 	n.emitted[dir] = append(n.emitted[dir], d)
 	auto := n.auto
 	n.mu.Unlock()
-	n.rec.emitKV(d.g, "dgram.out", nil, []any{"from", e.name, "dir", dir, "idx", d.idx, "len", len(p), "dst", string(dst)})
+	n.rec.emitKV(d.g, "dgram.out", nil, []any{"from", e.name, "dir", dir, "idx", d.idx, "len", len(p), "dst", string(dst), "tag", d.tag})
 	if auto != nil {
 		n.applyAuto(d, auto(d))
 	}
@@ -424,6 +431,7 @@ const (
 	fsmIdle = int32(iota)
 	fsmBusy
 	fsmGone
+	fsmNone // handshake not started yet
 )
 
 type labPeer struct {
@@ -462,6 +470,7 @@ func (r *labRun) newPeer(name string, addr labAddr) *labPeer {
 	p.end = r.net.endpoint(name, addr)
 	p.flight.Store("")
 	p.state.Store("")
+	p.status.Store(fsmNone)
 	if name == "c" {
 		r.c = p
 	} else {
@@ -474,6 +483,7 @@ func (r *labRun) newPeer(name string, addr labAddr) *labPeer {
 // attach registers the verification hooks for the connection of this peer.
 func (p *labPeer) attach(c *Conn) {
 	p.conn = c
+	p.end.tag = p.flightTag
 	extra := map[string]any{"side": p.name}
 	vtrace.Register(c.handshakeConfig, &vtrace.Hooks{
 		Emit: func(g uint64, ev string, kv []any) {
@@ -490,6 +500,16 @@ func (p *labPeer) attach(c *Conn) {
 			return v
 		},
 	})
+}
+
+// flightTag names the flight the FSM is currently in ("Flight 4b" -> "F4b").
+func (p *labPeer) flightTag() string {
+	f, _ := p.flight.Load().(string)
+	if len(f) > 7 && f[:7] == "Flight " {
+		return "F" + f[7:]
+	}
+
+	return f
 }
 
 func (p *labPeer) detach() {
@@ -571,6 +591,7 @@ func (p *labPeer) releaseAll() {
 
 // startHandshake runs HandshakeContext in a goroutine.
 func (p *labPeer) startHandshake(ctx context.Context) {
+	p.status.Store(fsmBusy)
 	go func() {
 		err := p.conn.HandshakeContext(ctx)
 		p.hsErr = err
@@ -609,6 +630,9 @@ func (p *labPeer) quiet() bool {
 	st := p.status.Load()
 	if st == fsmBusy {
 		return false
+	}
+	if st == fsmNone {
+		return true
 	}
 
 	return p.lab.net.readerIdle(p.name)
